@@ -16,7 +16,7 @@ import yaml
 import check as CK
 
 TRANSLATORS = ["confdefaults"]
-COQ_FILES = ["Props/C19.v", "Obl/C19_defaults.v"]
+COQ_FILES = ["Props/C19.v", "Obl/C19_defaults.v", "Obl/C19_model.v"]
 
 SCEN_IPS = ["192.168.1.2", "192.168.1.3", "192.168.1.4", "192.168.2.2", "192.168.2.3", "213.47.23.195", "192.168.1.1", "192.168.2.1"]
 SCEN_NETS = ["192.168.1.0/24", "192.168.2.0/24", "213.47.23.192/26"]
@@ -282,6 +282,31 @@ def correspondence(ctx):
             S.close()
     # ---- the shipped configuration: the documented 'all_attackers' wildcard in the Defender's goal
     probe_shipped(ctx, nsgenv, CR)
+    # ---- dynamic addresses: the configured start position is what the game uses for agents joining after re-labellings
+    from props import dynprobe
+    dynprobe.run(ctx, "C19")
+    # ---- the scalar getters against Model/Config.v (descriptors regenerated from utils.py): generated configuration trees,
+    #      well-formed and malformed, through the real getters and through `check_read` inside Coq
+    from props import c19_model
+    m_lines, m_metas, m_stats = c19_model.run(ctx, 400 if ctx.tier == "thorough" else 120)
+    m_files = c19_model.write_cases(casedir, m_lines, m_metas)
+    m_res = CK.run_case_files(ctx, [p for p, _ in m_files])
+    m_disagree = 0
+    for p, cs in m_files:
+        ok, out = m_res[p]
+        idx = CK.coq_eval_list(out) if ok else None
+        if idx is None:
+            ctx.stage_errors.append((f"coqc {os.path.basename(p)}", out[-600:]))
+            continue
+        idx = [int(x.replace("%nat", "")) for x in idx]
+        if len(cs) not in idx:
+            ctx.stage_errors.append((f"canary {os.path.basename(p)}", "deliberately false case not reported"))
+        for i in idx:
+            if i < len(cs):
+                m_disagree += 1
+                tree = m_metas[cs[i][1]][1]
+                ctx.broken.append(f"correspondence Model/Config.v read vs utils.ConfigParser getter: {cs[i][0].split(' cfg')[0][len('check_read gen_config_getters '):]} on {json.dumps(tree)[:300]}")
+    m_stats["model_impl_disagreements"] = m_disagree
     # ---- run the model
     shard = 20
     paths, shards = [], []
@@ -311,6 +336,7 @@ def correspondence(ctx):
             if i < len(chunk):
                 disagreements += 1
                 ctx.broken.append(f"correspondence Model/Load.v init_view vs _create_state_from_view: {chunk[i][1][:300]}")
+    ctx.coverage["config_getter_model"] = m_stats
     ctx.coverage.update({
         "evaluations": stats["configs"] + stats["joins"],
         "distinct_nontrivial": len({c[1] for c in case_lines}) + stats["configs"],
